@@ -126,6 +126,28 @@ def check_selector(c, name, sel, table, default_cols, rng, nranges):
             return False
         if b > a:
             c.nontrivial(c.cid, name, a, b, repr(cs), repr(key))
+    # strided / reversed row ranges: either refused, or exactly the rows Python slicing denotes, in that order
+    for _ in range(3):
+        a = int(rng.integers(-n - 1, n + 2)); b = int(rng.integers(-n - 1, n + 2))
+        step = int([-1, -1, -2, 0, 2, -3][int(rng.integers(6))])
+        key = slice(None if rng.random() < 0.3 else a, None if rng.random() < 0.3 else b, step)
+        c.ctx.oracle_evals += 1
+        try:
+            got = sel[key]
+        except (IndexError, ValueError, TypeError, NotImplementedError):
+            c.feature("range:strided:refused")
+            continue
+        try:
+            want_idx = list(range(n)[key])
+        except ValueError:
+            want_idx = None
+        c.feature("range:strided:answered")
+        if want_idx is None or list(got.index) != want_idx or \
+                not all(col_eq(got[col], np.asarray(table[col], dtype=object)[want_idx]) for col in default_cols):
+            c.fail(f"selector-wrong-rows:{name}:strided-slice-answered-wrongly",
+                   f"{name}()[{key!r}] was neither refused nor answered with rows {None if want_idx is None else want_idx[:10]}: "
+                   f"got rows {list(got.index)[:10]}", {"got_index": list(got.index)[:30], "n": n})
+            return False
     return True
 
 
@@ -191,6 +213,7 @@ def check_annotate(c, cooler, clr, T, rng, nbins, nreps):
             parts = [parts[int(x)] for x in rng.permutation(len(parts))[:10]] + [parts[0], parts[-1]]
         for a, b in parts:
             forms.append((f"bins-partial:{a > 0}", bins_df.iloc[a:b]))
+        arg = pix.copy()            # ONE frame reused for every call of this round, as a caller would
         for fname, bins in forms:
             tag = fname.split(":")[0]
             c.feature(f"annotate:{tag}")
@@ -199,7 +222,7 @@ def check_annotate(c, cooler, clr, T, rng, nbins, nreps):
                 c.feature("annotate:strategy:minmax" if nb > len(pix) else "annotate:strategy:whole")
             c.ctx.oracle_evals += 1
             try:
-                got = cooler.annotate(pix.copy(), bins, replace=replace)
+                got = cooler.annotate(arg, bins, replace=replace)
             except Exception as e:  # noqa
                 key = "annotate-raises:" + ("empty-pixels" if len(pix) == 0 else "nonempty") + ":" + \
                       ("partial-bins-without-bin0" if fname == "bins-partial:True" else tag)
@@ -212,6 +235,11 @@ def check_annotate(c, cooler, clr, T, rng, nbins, nreps):
                 for col in want:
                     ok = ok and col_eq(got[col], want[col])
             if not ok:
+                if list(arg.columns) != list(pix.columns) or len(arg) != len(pix):
+                    c.fail("annotate-wrong:same-pixel-frame-annotated-again", f"annotate(..., replace={replace}) on a frame that "
+                           f"an earlier annotate call had received: columns of the caller's frame are now {list(arg.columns)}",
+                           {"got": got.head(8), "want_cols": list(want)})
+                    return False
                 c.fail(f"annotate-wrong:{tag}:{'ordered' if mode in (1, 4, 6, 7) else 'unordered-or-special'}",
                        f"annotate({len(pix)} pixels, {fname}, replace={replace}) does not attach each pixel's own bins "
                        f"/ keep order and index", {"got": got.head(8), "want_cols": list(want), "pixels": pix.head(8)})
